@@ -12,6 +12,14 @@ CHECKS = {
              "generated inputs each run, and the property oracle is evaluated on Go's own outputs.",
         note=NOTE_COMMON + "Slices are modelled with cap == len.",
     ),
+    "C02": dict(
+        technique="Lean 4 refinement proof (simulation relation, induction over histories) + differential correspondence against model and list-of-parts spec",
+        text="A generic simulation theorem (run_refines) shows that for every finite history the observations of the Go-code model equal those of the "
+             "abstract list-of-parts specification; instantiated and proved for Polygon/MultiLineString (C02_poly_refines: Num, i-th part incl. empty parts, "
+             "Coords concatenation, wrong-layout Push error and unchanged receiver, Reverse, Swap). MultiPoint/MultiPolygon share the executable machines "
+             "and are compared with their specs on generated histories each run. Go is run on the same histories and compared with both.",
+        note=NOTE_COMMON + "Refinement is proved for the geom2 types; for MultiPoint and MultiPolygon only the per-run comparison with the spec machine is available (partial).",
+    ),
 }
 
 _PENDING = "check not built yet in this session (work in progress; see DESIGN.md §9 build order)"
